@@ -1,7 +1,7 @@
 (* C07 — property theorems (statements closed by `exact`, Print Assumptions, non-vacuity). *)
-From Coq Require Import List Arith Bool Lia.
+From Coq Require Import List Arith Bool Lia NArith.
 Import ListNotations.
-From SV Require Import C07.Pat C07.PatFuel C07.PatCex C07.Entry C07.Corr.
+From SV Require Import C07.Pat C07.PatFuel C07.PatCex C07.PatCexFuel C07.PatCexComplete C07.PatInhabited C07.Entry C07.Corr.
 
 Definition H_variants_of (ty : Type) (shape : ty -> tshape ty) (variants_of : nat -> list (nat * nat)) : Prop :=
   forall t cls vs, shape t = SEnum ty cls vs -> variants_of cls = map (fun '(v, tys) => (v, length tys)) vs.
@@ -44,6 +44,120 @@ Theorem C07_fuel_sufficient : forall ty shape variants_of fuel P q ts,
   useful variants_of fuel P q <> None.
 Proof. exact fuel_sufficient. Qed.
 
+(* ------------------------------------------------------------------------------------------------ *)
+(* Completeness of the counterexample function, its explicit fuel, and the role of inhabitation      *)
+
+(* cex and useful agree whenever both answer: no typing, no inhabitation, any two fuels *)
+Theorem C07_cex_useful_agree : forall variants_of f1 f2 P n r b,
+  cex variants_of f1 P n = Some r -> useful variants_of f2 P (repeat PWild n) = Some b ->
+  (r = None <-> b = false).
+Proof. exact cex_useful_agree. Qed.
+
+(* matrix form: with fuel >= cex_fuel P n the counterexample function answers; it answers "none" iff a further
+   all-wildcard row is useless iff every well-typed value vector is matched by some row; a returned
+   counterexample is a well-typed pattern vector, denotes at least one value vector, and none of its instances is
+   matched *)
+Theorem C07_cex_complete_matrix : forall ty shape variants_of,
+  H_variants_of ty shape variants_of -> H_inhabited_of ty shape ->
+  forall fuel P ts, Forall (row_ok ty shape ts) P -> cex_fuel P (length ts) <= fuel ->
+  exists r, cex variants_of fuel P (length ts) = Some r /\
+    (r = None <-> useful variants_of fuel P (repeat PWild (length ts)) = Some false) /\
+    (r = None <-> forall vs, vals_ok ty shape ts vs -> any_row P vs = true) /\
+    (forall pv, r = Some pv ->
+       row_ok ty shape ts pv /\
+       (exists vs, vals_ok ty shape ts vs /\ matches_vec pv vs = true) /\
+       (forall vs, vals_ok ty shape ts vs -> matches_vec pv vs = true -> any_row P vs = false)).
+Proof. exact cex_complete. Qed.
+
+(* entry point form (incomplete_counterexample on the arms of a match / the pattern of a let): a counterexample
+   is produced iff the match is not exhaustive, and it is a pattern of the scrutinee type that denotes at least
+   one value and only values that no arm matches *)
+Theorem C07_cex_complete : forall ty shape variants_of,
+  H_variants_of ty shape variants_of -> H_inhabited_of ty shape ->
+  forall fuel ps t, Forall (fun p => pat_ok ty shape p t) ps -> cex_fuel (column ps) 1 <= fuel ->
+  exists r, cex variants_of fuel (column ps) 1 = Some r /\
+    (r = None <-> useful variants_of fuel (column ps) [PWild] = Some false) /\
+    (r = None <-> forall v, val_ok ty shape v t -> covers ps v = true) /\
+    (forall pv, r = Some pv -> exists c, pv = [c] /\ pat_ok ty shape c t /\
+       (exists v, val_ok ty shape v t /\ matches c v = true) /\
+       (forall v, val_ok ty shape v t -> matches c v = true -> covers ps v = false)).
+Proof. exact match_cex_complete. Qed.
+
+(* explicit fuel: cex_fuel P n = 1 + (sum over rows of the product of pattern weights) * (1 + largest arity) + n;
+   at or above it the answer is not the out-of-fuel value and does not depend on the fuel.  The recursion only
+   descends into the default matrix or into the specialisation by a root constructor, both strictly smaller in
+   this measure: the real function cannot revisit a matrix. *)
+Theorem C07_cex_fuel_sufficient : forall ty shape variants_of P ts f1 f2,
+  Forall (row_ok ty shape ts) P -> cex_fuel P (length ts) <= f1 -> cex_fuel P (length ts) <= f2 ->
+  cex variants_of f1 P (length ts) = cex variants_of f2 P (length ts) /\
+  cex variants_of f1 P (length ts) <> None.
+Proof. exact cex_fuel_stable. Qed.
+
+Theorem C07_match_cex_fuel_sufficient : forall ty shape variants_of f1 f2 ps t,
+  Forall (fun p => pat_ok ty shape p t) ps ->
+  cex_fuel (column ps) 1 <= f1 -> cex_fuel (column ps) 1 <= f2 ->
+  cex variants_of f1 (column ps) 1 = cex variants_of f2 (column ps) 1 /\
+  cex variants_of f1 (column ps) 1 <> None.
+Proof. exact match_cex_fuel_sufficient. Qed.
+
+(* more fuel never changes an answer of either function *)
+Theorem C07_cex_fuel_monotone : forall variants_of f P n r, cex variants_of f P n = Some r ->
+  forall f', f <= f' -> cex variants_of f' P n = Some r.
+Proof. exact cex_mono. Qed.
+
+Theorem C07_useful_fuel_monotone : forall variants_of f P q b, useful variants_of f P q = Some b ->
+  forall f', f <= f' -> useful variants_of f' P q = Some b.
+Proof. exact useful_mono. Qed.
+
+(* inhabitation is NOT needed for the safety direction: for every type environment (uninhabited payloads
+   included), what the algorithm declares covered is covered, and a match for which no counterexample is produced
+   is exhaustive *)
+Theorem C07_useful_false_covered_any_types : forall ty shape variants_of,
+  H_variants_of ty shape variants_of ->
+  forall fuel P q ts, useful variants_of fuel P q = Some false ->
+  Forall (row_ok ty shape ts) P -> row_ok ty shape ts q ->
+  forall vs, vals_ok ty shape ts vs -> matches_vec q vs = true -> any_row P vs = true.
+Proof. exact useful_false_covered. Qed.
+
+Theorem C07_accept_sound_any_types : forall ty shape variants_of,
+  H_variants_of ty shape variants_of ->
+  forall fuel ps t, cex variants_of fuel (column ps) 1 = Some None ->
+  Forall (fun p => pat_ok ty shape p t) ps ->
+  forall v, val_ok ty shape v t -> covers ps v = true.
+Proof. exact match_accept_sound_any. Qed.
+
+(* inhabitation IS needed for the other direction.  Full statement without it (FALSE of the model):
+     forall e t ps, variants_okb e = true -> forallb (fun p => pat_okb e p t) ps = true ->
+       (cex (variants_in e) fuel (column ps) 1 = Some None <-> forall v, val_ok nat (shape_of e) v t -> covers ps v = true)
+   Witness: class Never(N(Never)) {}  class E(A, B(Never)) {}  match (e : E) { A -> .. }: every value of E is
+   matched, yet the model (like the real checker) reports B(_), a well-typed pattern that denotes no value. *)
+Theorem C07_uninhabited_refuted :
+  exists (e : tenv) (t : nat) (ps : list pat) (c : pat),
+    variants_okb e = true /\ forallb (fun p => pat_okb e p t) ps = true /\ pat_okb e c t = true /\
+    (forall v, val_ok nat (shape_of e) v t -> existsb (fun p => matches p v) ps = true) /\
+    (exists v, val_ok nat (shape_of e) v t) /\
+    (forall fuel, cex_fuel (map (fun p => [p]) ps) 1 <= fuel ->
+       cex (variants_in e) fuel (map (fun p => [p]) ps) 1 = Some (Some [c])) /\
+    useful (variants_in e) (fuel_for (map (fun p => [p]) ps) [PWild]) (map (fun p => [p]) ps) [PWild] = Some true /\
+    predict (mkCase e t KMatch ps true) = Some true /\
+    (forall v, val_ok nat (shape_of e) v t -> matches c v = false) /\
+    ~ (forall t', exists v, val_ok nat (shape_of e) v t').
+Proof. exact uninhabited_refuted. Qed.
+
+(* the functions the correspondence check evaluates (Corr.predict / predict_by_useful / hyps_ok): the model's two
+   verdicts never disagree (Corr.verdict = 4 cannot occur) ... *)
+Theorem C07_predict_agree : forall c b u, c_kind c <> KIfLet ->
+  predict c = Some b -> predict_by_useful c = Some u -> u = b.
+Proof. exact predict_agree. Qed.
+
+(* ... and on match / let cases that pass hyps_ok, over inhabited types, the model answers at the fuel the check
+   uses (Corr.verdict = 2 cannot occur) and predicts "flagged" iff some value is matched by no arm *)
+Theorem C07_predict_match_exact : forall c, c_kind c <> KIfLet -> hyps_ok c = true ->
+  (forall t, exists v, val_ok nat (shape_of (c_env c)) v t) ->
+  exists b, predict c = Some b /\ predict_by_useful c = Some b /\
+    (b = false <-> forall v, val_ok nat (shape_of (c_env c)) v (c_ty c) -> covers (c_pats c) v = true).
+Proof. exact predict_match_exact. Qed.
+
 (* ---- non-vacuity: Option-like enum with a recursive payload, one missing arm ---- *)
 Definition demo_env : tenv := [SOpaque nat; SEnum nat 0 [(0, []); (1, [0; 1])]].
 Example C07_nonvacuous :
@@ -53,8 +167,84 @@ Example C07_nonvacuous :
   useful (variants_in demo_env) 30 (column [PCtor (Some (0, 1)) [PWild; PWild]; PCtor (Some (0, 0)) []]) [PWild] = Some false.
 Proof. vm_compute. auto. Qed.
 
+(* ---- non-vacuity of the new theorems: the demo environment satisfies every hypothesis ---- *)
+Example C07_demo_variants : H_variants_of nat (shape_of demo_env) (variants_in demo_env).
+Proof. exact (variants_okb_sound demo_env eq_refl). Qed.
+
+Example C07_demo_inhabited : H_inhabited_of nat (shape_of demo_env).
+Proof.
+  intros [|[|t]].
+  - exists (VOpaque 0). reflexivity.
+  - exists (VCtor (Some (0, 0)) []). cbn. exists []. split; [reflexivity|exact I].
+  - exists (VOpaque 0). cbn. destruct t; reflexivity.
+Qed.
+
+Definition demo_missing : list pat := [PCtor (Some (0, 1)) [PWild; PCtor (Some (0, 0)) []]; PCtor (Some (0, 0)) []].
+Definition demo_full : list pat := [PCtor (Some (0, 1)) [PWild; PWild]; PCtor (Some (0, 0)) []].
+
+Example C07_demo_typed :
+  Forall (fun p => pat_ok nat (shape_of demo_env) p 1) demo_missing /\
+  Forall (fun p => pat_ok nat (shape_of demo_env) p 1) demo_full.
+Proof. split; apply Forall_forall; intros p Hp; apply pat_okb_sound; cbn in Hp; intuition (subst; vm_compute; reflexivity). Qed.
+
+(* both outcomes of C07_cex_complete occur at the explicit fuel: a counterexample  Some(_, Some(_, _))  for the
+   matrix with a missing arm, none for the complete one; the bound is a small concrete number; and below it the
+   out-of-fuel value does occur, so the bound is not trivially satisfied *)
+Example C07_cex_complete_nonvacuous :
+  cex_fuel (column demo_missing) 1 = 17 /\
+  cex (variants_in demo_env) (cex_fuel (column demo_missing) 1) (column demo_missing) 1
+    = Some (Some [PCtor (Some (0, 1)) [PWild; PCtor (Some (0, 1)) [PWild; PWild]]]) /\
+  useful (variants_in demo_env) (cex_fuel (column demo_missing) 1) (column demo_missing) [PWild] = Some true /\
+  cex (variants_in demo_env) (cex_fuel (column demo_full) 1) (column demo_full) 1 = Some None /\
+  useful (variants_in demo_env) (cex_fuel (column demo_full) 1) (column demo_full) [PWild] = Some false /\
+  cex (variants_in demo_env) 3 (column demo_missing) 1 = None /\
+  cex (variants_in demo_env) 4 (column demo_missing) 1 <> None.
+Proof. vm_compute. repeat split; discriminate. Qed.
+
+(* the conclusion of C07_cex_complete, instantiated: its hypotheses are jointly satisfiable *)
+Example C07_cex_complete_instance :
+  exists c, cex (variants_in demo_env) 17 (column demo_missing) 1 = Some (Some [c]) /\
+    (exists v, val_ok nat (shape_of demo_env) v 1 /\ matches c v = true) /\
+    (forall v, val_ok nat (shape_of demo_env) v 1 -> matches c v = true -> covers demo_missing v = false).
+Proof.
+  destruct (C07_cex_complete nat (shape_of demo_env) (variants_in demo_env) C07_demo_variants C07_demo_inhabited
+              17 demo_missing 1 (proj1 C07_demo_typed)) as [r [Hr [_ [_ Hpv]]]]; [vm_compute; repeat constructor|].
+  destruct r as [pv|]; [|vm_compute in Hr; discriminate].
+  destruct (Hpv pv eq_refl) as [c [-> [_ [Hex Hall]]]]. exists c. auto.
+Qed.
+
+(* C07_predict_match_exact applies to a concrete case of the shape the check generates *)
+Example C07_predict_nonvacuous :
+  hyps_ok (mkCase demo_env 1 KMatch demo_missing true) = true /\
+  predict (mkCase demo_env 1 KMatch demo_missing true) = Some true /\
+  predict (mkCase demo_env 1 KLet demo_full false) = Some false /\
+  verdict (mkCase demo_env 1 KMatch demo_missing true) = 0%N.
+Proof. vm_compute. auto. Qed.
+
+(* the uninhabited witness, concretely (class Never(N(Never)), class E(A, B(Never)), arms [A]) *)
+Example C07_uninhabited_concrete :
+  hyps_ok never_case = true /\ predict never_case = Some true /\
+  cex (variants_in never_env) (fuel_for (column [pat_A]) [PWild]) (column [pat_A]) 1 = Some (Some [pat_B_wild]) /\
+  (forall v, val_ok nat (shape_of never_env) v 1 -> covers [pat_A] v = true).
+Proof.
+  split; [vm_compute; reflexivity|]. split; [vm_compute; reflexivity|]. split; [vm_compute; reflexivity|].
+  intros v Hv. rewrite (E_values v Hv). vm_compute. reflexivity.
+Qed.
+
 Print Assumptions C07_useful_exact.
 Print Assumptions C07_match_exhaustive_exact.
 Print Assumptions C07_iflet_useless_exact.
 Print Assumptions C07_counterexample_valid.
 Print Assumptions C07_fuel_sufficient.
+Print Assumptions C07_cex_useful_agree.
+Print Assumptions C07_cex_complete_matrix.
+Print Assumptions C07_cex_complete.
+Print Assumptions C07_cex_fuel_sufficient.
+Print Assumptions C07_match_cex_fuel_sufficient.
+Print Assumptions C07_cex_fuel_monotone.
+Print Assumptions C07_useful_fuel_monotone.
+Print Assumptions C07_useful_false_covered_any_types.
+Print Assumptions C07_accept_sound_any_types.
+Print Assumptions C07_uninhabited_refuted.
+Print Assumptions C07_predict_agree.
+Print Assumptions C07_predict_match_exact.
